@@ -1,4 +1,5 @@
 #![allow(dead_code)]
+mod allocsc;
 mod crash;
 mod extra;
 mod fault;
@@ -26,6 +27,10 @@ fn main() {
     let code = match args[1].as_str() {
         "replay" => props::replay(&args[2]),
         "selftest" => props::selftest(),
+        "debug-frag" => {
+            props::debug_frag();
+            0
+        }
         p => props::run_check(p, &args[2..]),
     };
     std::process::exit(code);
